@@ -210,7 +210,9 @@ func (w *World) instrWrites(in ssa.Instruction, ws *WriteSet, g *Gen) {
 		pt := x.Type().Underlying().(*types.Pointer).Elem()
 		if isStruct(pt) {
 			addStructVars(ws, pt)
-		} else if _, isArr := pt.Underlying().(*types.Array); !isArr {
+		} else if at, isArr := pt.Underlying().(*types.Array); isArr {
+			ws.add(elemVar(at.Elem()), ArrSort(SInt, ArrSort(SInt, elemSort(at.Elem()))))
+		} else {
 			ws.add(cellVar(pt), ArrSort(SInt, sortOf(pt)))
 		}
 	case *ssa.MakeMap:
@@ -255,6 +257,7 @@ func (w *World) instrWrites(in ssa.Instruction, ws *WriteSet, g *Gen) {
 }
 
 func (w *World) interferenceWrites(ws *WriteSet, g *Gen) {
+	ws.Yields = true
 	for key, ann := range w.specs.FieldAnn {
 		if ann["shared"] == "" {
 			continue
@@ -273,23 +276,19 @@ func (w *World) interferenceWrites(ws *WriteSet, g *Gen) {
 		}
 	}
 	for _, gd := range w.specs.Ghosts {
-		if gd.Kind == "ghost" && gd.Monotone && g != nil {
-			if s, ok := g.vc.heapVarSorts["G."+gd.Name]; ok {
-				ws.add("G."+gd.Name, s)
-			} else {
-				var sorts []Sort
-				ok := true
-				for _, p := range gd.Params {
-					t := w.resolveType(p, g.fn.Pkg.Pkg)
-					if t == nil {
-						ok = false
-						break
-					}
-					sorts = append(sorts, sortOf(t))
+		if gd.Kind == "ghost" && gd.Monotone {
+			var sorts []Sort
+			ok := true
+			for _, p := range gd.Params {
+				t := w.resolveType(p, nil)
+				if t == nil {
+					ok = false
+					break
 				}
-				if ok {
-					ws.add("G."+gd.Name, ghostSort(sorts, SBool))
-				}
+				sorts = append(sorts, sortOf(t))
+			}
+			if ok {
+				ws.add("G."+gd.Name, ghostSort(sorts, SBool))
 			}
 		}
 	}
@@ -391,7 +390,7 @@ func (w *World) callWrites(c *ssa.CallCommon, ws *WriteSet, g *Gen) {
 		}
 	}
 	if ct != nil {
-		if ct.Flags["yields"] != "" {
+		if ct.Flags["yields"] != "" || (fn != nil && len(fn.Blocks) > 0 && w.isRepoFunc(fn) && w.writeSet(fn, nil).Yields) {
 			w.interferenceWrites(ws, g)
 		}
 		if ct.HasAssigns {
@@ -878,6 +877,11 @@ func (g *Gen) frameObligations(exit *Heap, guard string, pos string) {
 	for _, n := range names {
 		if n == allocVar || strings.HasPrefix(n, "Seen.") {
 			continue
+		}
+		if strings.HasPrefix(n, "G.") {
+			if gd := g.specs.Ghosts[n[2:]]; gd != nil && gd.Monotone {
+				continue // latches are set by other goroutines at any time (rely); never framed
+			}
 		}
 		s := g.vc.heapVarSorts[n]
 		a, b := g.entry.Get(n, s), exit.Get(n, s)
